@@ -385,9 +385,9 @@ impl Prop for Restyle {
             );
         }
         if !ra.compile.is_ok() {
-            // a generator product the compiler rejects in both spellings: C02/C03 territory
-            st.label("both-rejected");
-            return Verdict::Pass(st);
+            // the generator promises well-typed programs (C02 reports the same): a front end that
+            // rejects both spellings must not make this check pass vacuously
+            return Verdict::Fail(Failure::new("VerdictMismatch", format!("generated program rejected in its canonical print: {}", diag_line(&ra.compile))).feat("text:canonical").detail(detail));
         }
         let same = ra.stdout == rb.stdout && end_tag(&ra) == end_tag(&rb) && ra.final_value == rb.final_value;
         if !same {
@@ -429,7 +429,7 @@ fn excerpt(s: &str) -> String {
 pub fn run(ctx: &mut Ctx) {
     ctx.assume("`;` is optional after a top-level item and after a statement in a block (directly after it, on the same line); `,` after a match arm, a struct field and between the elements of any parenthesised / bracketed list, where a newline may stand instead; a bare `return` keeps its newline (DESIGN 3.1)");
     ctx.assume("comments are inserted only between tokens of the canonical print; a block comment is separated from its neighbours by blanks");
-    ctx.assume("E1 programs use the deterministic core flags; a program the compiler rejects in both spellings is counted, not judged");
+    ctx.assume("E1 programs use the deterministic core flags and are well-typed by construction; a canonical print the compiler rejects is reported");
     ctx.prop(&crate::g::srccase::SrcProp { name: "program" });
     ctx.prop(&Restyle);
 }
